@@ -114,7 +114,7 @@ func Gen(t *rapid.T, o GenOpts) (CMap, []string) {
 		kind := rapid.SampledFrom(kinds).Draw(t, "kind")
 		n := rapid.IntRange(1, o.MaxRun).Draw(t, "runLen")
 		if rapid.IntRange(0, 30).Draw(t, "longRun") == 0 {
-			n = rapid.IntRange(100, 130).Draw(t, "longRunLen") // crosses the 100-entries-per-section limit for bfchar
+			n = rapid.SampledFrom([]int{100, 101, 130, 200, 256}).Draw(t, "longRunLen") // crosses the 100-entries-per-section limit for bfchar; 256 = a whole last-byte row
 		}
 		b := Block{Kind: kind}
 		switch kind {
